@@ -58,6 +58,11 @@ def accounted (account : List Row) (e : Entry) : Nat :=
 def covers (census : List Entry) (account : List Row) : Bool :=
   census.all fun e => decide (e.count ≤ accounted account e)
 
+/-- the census entries that are NOT accounted for (for diagnosis when a census theorem stops
+building: `#eval Tera.PanicCensus.uncovered Tera.Generated.panicCensusAdd Tera.PanicCensus.accountAdd`) -/
+def uncovered (census : List Entry) (account : List Row) : List Entry :=
+  census.filter fun e => !decide (e.count ≤ accounted account e)
+
 /-- hygiene only (Lemmas-level, not a property): every account row is about a site that exists -/
 def notStale (census : List Entry) (account : List Row) : Bool :=
   account.all fun r => census.any fun e => sameSite e r.1
